@@ -184,6 +184,24 @@ func packedKinds() []kind {
 			for i := range us {
 				us[i] = elem(r)
 			}
+			// one list in four is uniform: every element equal to the largest one drawn, or all zero — so
+			// that a few dozen wide elements cross the length-prefix boundaries
+			switch r.Intn(12) {
+			case 0, 1:
+				var w uint64
+				for _, u := range us {
+					if u > w {
+						w = u
+					}
+				}
+				for i := range us {
+					us[i] = w
+				}
+			case 2:
+				for i := range us {
+					us[i] = 0
+				}
+			}
 			return wval{us: us}
 		}
 	}
